@@ -158,13 +158,12 @@ func (a *actor) runActorCommandWithConsumer(
 		// If we're interrupting the process, do it.
 		if interrupt {
 			log.Info(ctx, "interrupting command")
-			pgid, err := syscall.Getpgid(cmd.Process.Pid)
-			if err != nil {
-				log.Warningf(ctx, "unable to obtain process group: %v", err)
-			} else {
-				// First, try to ask the process to terminate gracefully.
-				syscall.Kill(-pgid, syscall.SIGHUP)
-			}
+			// First, try to ask the process to terminate gracefully.
+			// The command is the leader of its own process group (see
+			// makeShCmd): the group is named by its pid, also when the
+			// leader itself is gone already and only children remain
+			// (Getpgid fails then, and they would never be signalled).
+			syscall.Kill(-cmd.Process.Pid, syscall.SIGHUP)
 		}
 
 		timer := time.After(2 * time.Second)
@@ -233,17 +232,14 @@ func (a *actor) runActorCommandWithConsumer(
 		case <-termCh:
 		}
 		log.Info(ctx, "interrupting command")
-		pgid, err := syscall.Getpgid(cmd.Process.Pid)
-		if err == nil {
-			// First, try to ask the process to terminate gracefully.
-			syscall.Kill(-pgid, syscall.SIGHUP)
-		}
+		// First, try to ask the process to terminate gracefully
+		// (the group is named by the pid of its leader, see above).
+		pgid := cmd.Process.Pid
+		syscall.Kill(-pgid, syscall.SIGHUP)
 		select {
 		case <-waitDone:
 		case <-time.After(2 * time.Second):
-			if err == nil {
-				syscall.Kill(-pgid, syscall.SIGKILL)
-			}
+			syscall.Kill(-pgid, syscall.SIGKILL)
 			killCmd()
 		}
 	}()
